@@ -19,6 +19,7 @@ import (
 	"encoding/hex"
 	"errors"
 	"fmt"
+	"hash/crc32"
 	"io"
 	"math"
 	"os"
@@ -80,6 +81,7 @@ type jcase struct {
 	Cut     int       `json:"cut_permille,omitempty"`
 	NoRecov bool      `json:"no_recovery,omitempty"`
 	Walk    string    `json:"impl_walk,omitempty"`
+	Note    string    `json:"note,omitempty"`
 	// limit
 	Klen int `json:"klen,omitempty"`
 	Blen int `json:"blen,omitempty"`
@@ -666,7 +668,61 @@ func runCrash(w *vh.W, c *jcase) {
 		fired++
 		copyDir(dir, s2) // .tmp complete and fsynced, not yet renamed
 	}})
+	// while the commit runs, a second goroutine polls the tombstone file: whenever one existed before
+	// the commit, at every instant the path must resolve to a complete file holding the old or the new set
+	tpath := filepath.Join(dir, "000000001-000000001.tombstone")
+	stop, pollDone := make(chan struct{}), make(chan struct{})
+	missing := 0
+	seen := map[string][]byte{}
+	if len(c.Old) > 0 {
+		go func() {
+			defer close(pollDone)
+			for {
+				select {
+				case <-stop:
+					return
+				default:
+				}
+				b, err := os.ReadFile(tpath)
+				if err != nil {
+					if os.IsNotExist(err) {
+						missing++
+					}
+					continue
+				}
+				k := fmt.Sprintf("%d/%x", len(b), crc32.ChecksumIEEE(b))
+				if _, ok := seen[k]; !ok {
+					seen[k] = b
+				}
+			}
+		}()
+	} else {
+		close(pollDone)
+	}
 	del(c.New)
+	close(stop)
+	<-pollDone
+	if missing > 0 {
+		w.Fail(w.Len(), fmt.Sprintf("tombstone commit: during the commit the existing .tombstone file was absent at %d polled instant(s): a crash there loses every committed tombstone (neither the old nor the new set)", missing), "")
+	}
+	if len(seen) > 0 {
+		flatS := func(ms [][]jtrec, extra []jtrec) string {
+			var o []jtrec
+			for _, m := range ms {
+				o = append(o, m...)
+			}
+			return fmt.Sprint(append(o, extra...))
+		}
+		pd := newDir()
+		defer os.RemoveAll(pd)
+		for _, b := range seen {
+			must(os.WriteFile(filepath.Join(pd, "000000001-000000001.tombstone"), b, 0o644))
+			recs, err := walkTomb(filepath.Join(pd, name))
+			if got := fmt.Sprint(recs); err != nil || (got != flatS(c.Old, nil) && got != flatS(c.Old, c.New)) {
+				w.Fail(w.Len(), fmt.Sprintf("tombstone commit: a polled image of the .tombstone file during the commit holds neither the old nor the new set: %v %v", recs, err), "")
+			}
+		}
+	}
 	copyDir(dir, s4)
 	r.Close()
 	if fired != 1 {
@@ -755,6 +811,108 @@ func runCrash(w *vh.W, c *jcase) {
 	w.Count("crash_step", fmt.Sprintf("%d/%d", c.Step, c.Variant))
 }
 
+// ---------- kind: renamefail ----------
+// The rename of the .tombstone.tmp into place is made to fail (the FileFinishing callback, which runs
+// after the tmp is complete and fsynced and before the rename, moves the tmp out of the directory).
+// DeleteRange must return the error and the tombstone set on disk must still be exactly the OLD set:
+// in the crash model this is the state after [write tmp; fsync tmp] with the rename not done.
+func runRenameFail(w *vh.W, c *jcase) {
+	c.Note = "fault injection: the .tombstone.tmp is moved away in the FileFinishing callback so that the commit's rename fails; the tombstone set read back afterwards (variant 0: image of the directory right after the failure, 1: that image after *.tmp cleanup, 2: the original directory after *.tmp cleanup) must be exactly the old set"
+	dir := newDir()
+	defer os.RemoveAll(dir)
+	name := "000000001-000000001.tsm"
+	path := filepath.Join(dir, name)
+	keys := []fkey{{Key: "a", Typ: 1, Blocks: [][]int64{{0, 5}}}, {Key: "m", Typ: 1, Blocks: [][]int64{{10, 20}, {30, 40}}}, {Key: "z", Typ: 0, Blocks: [][]int64{{50, 100}}}}
+	writeKeys(path, keys)
+	r, err := openReader(path)
+	must(err)
+	del := func(m []jtrec) error {
+		ks := []string{}
+		for _, t := range m {
+			ks = append(ks, t.Key)
+		}
+		return r.DeleteRange(bkeys(ks), m[0].Min, m[0].Max)
+	}
+	for _, m := range c.Old {
+		if err := del(m); err != nil {
+			w.Fail(w.Len(), fmt.Sprintf("DeleteRange error: %v", err), "")
+		}
+	}
+	away := newDir()
+	defer os.RemoveAll(away)
+	fired := 0
+	r.WithObserver(&hookObs{fn: func(p string) {
+		fired++
+		os.Rename(p, filepath.Join(away, "stolen.tmp"))
+	}})
+	derr := del(c.New)
+	if fired != 1 {
+		w.Fail(w.Len(), fmt.Sprintf("tombstone commit hook fired %d times", fired), "")
+	}
+	if derr == nil {
+		w.Fail(w.Len(), "DeleteRange reported success although the rename of the .tombstone.tmp into place failed", "")
+	}
+	img := newDir()
+	img2 := newDir()
+	defer os.RemoveAll(img)
+	defer os.RemoveAll(img2)
+	copyDir(dir, img)
+	copyDir(dir, img2)
+	vh.Guard(func() { r.Close() })
+	cleanup := func(d string) {
+		tmps, _ := filepath.Glob(filepath.Join(d, "*."+tsm1.CompactionTempExtension))
+		for _, f := range tmps {
+			os.Remove(f)
+		}
+	}
+	cleanup(img2)
+	cleanup(dir)
+	var oldF []jtrec
+	for _, m := range c.Old {
+		oldF = append(oldF, m...)
+	}
+	var chosen []jtrec
+	var chosenErr error
+	for v, d := range []string{img, img2, dir} {
+		what := []string{"the image of the directory taken right after the failed commit", "that image after *.tmp cleanup", "the original directory after *.tmp cleanup"}[v]
+		recs, werr := walkTomb(filepath.Join(d, name))
+		if v == c.Variant {
+			chosen, chosenErr = recs, werr
+		}
+		if werr != nil || fmt.Sprint(recs) != fmt.Sprint(oldF) {
+			w.Fail(w.Len(), fmt.Sprintf("after a FAILED rename in the tombstone commit, %s holds the tombstone set %v (err %v) instead of the old set %v: previously committed tombstones are lost", what, recs, werr, oldF), "")
+		}
+		r2, oerr := openReader(filepath.Join(d, name))
+		if oerr != nil {
+			w.Fail(w.Len(), fmt.Sprintf("reader does not open %s: %v", what, oerr), "")
+			continue
+		}
+		for _, k := range keys {
+			for _, b := range k.Blocks {
+				for _, t := range b {
+					vis := true
+					for _, x := range oldF {
+						if x.Key == k.Key && x.Min <= t && t <= x.Max {
+							vis = false
+						}
+					}
+					if r2.ContainsValue([]byte(k.Key), t) != vis {
+						w.Fail(w.Len(), fmt.Sprintf("after a failed tombstone commit, reopening %s: point (%q,%d) visible=%v, but by the old tombstone set it must be %v", what, k.Key, t, !vis, vis), "")
+					}
+				}
+			}
+		}
+		r2.Close()
+	}
+	c.Walk = fmt.Sprint(chosen, chosenErr)
+	c.Step = 2
+	// judge: the crash model after [write tmp; fsync tmp] (rename not done) predicts the old set
+	t := fmt.Sprintf("CCrash %s %s %s %s %s %s", membersT(c.Old), trecsT(c.New), vh.N(2), vh.N(0), vh.N(0), optT(chosenErr == nil, trecsT(chosen)))
+	w.Add(t, c, len(c.Old) > 0, "")
+	w.Count("kind", "renamefail")
+	w.Count("renamefail_old_members", fmt.Sprint(len(c.Old)))
+}
+
 // ---------- kind: limit ----------
 func runLimit(w *vh.W, c *jcase) {
 	dir := newDir()
@@ -821,6 +979,8 @@ func run(w *vh.W, c *jcase) {
 		runTomb(w, c)
 	case "crash":
 		runCrash(w, c)
+	case "renamefail":
+		runRenameFail(w, c)
 	case "limit":
 		runLimit(w, c)
 	default:
@@ -1241,7 +1401,7 @@ func (g gen) crashCase() jcase {
 
 func main() {
 	w := vh.New("C08", "From Verif Require Import Base.Prelude Base.C08_BE Model.C08_File Model.C08_Index Model.C08.", "case", "check")
-	w.Rule = "kinds: file (1-4 keys x 1-3 real encoded blocks through WriteBlock/Write; some with unknown block type, out-of-order key, empty blocks, nothing written, blocks out of time order), idx (1-6 keys x 1-5 blocks x 1-3 points from a pool of keys with ',', '=', ' ', backslash escapes, control bytes, prefixes of each other and a ~300-byte key; times small, sometimes all negative or with MinInt64/MaxInt64; 6-13 lookups on present/absent/neighbour keys and times, then 0-4 DeleteRange/Delete batches (sorted key batches with duplicates and absent keys; full-range, whole-key, half-open, inverted and adjacent ranges) each followed by boundary probes, lookups and sometimes reopen), tomb (1-3 Tombstoner commits), crash (5 crash points x durable/non-durable rename x 14+ truncation points of the .tmp, with and without *.tmp cleanup), limit (key length and block count around 65535). Non-trivial: file with >= 2 accepted calls, idx with >= 1 delete, tomb with >= 2 members, every crash and limit case. Distinct: distinct Gallina terms."
+	w.Rule = "kinds: file (1-4 keys x 1-3 real encoded blocks through WriteBlock/Write; some with unknown block type, out-of-order key, empty blocks, nothing written, blocks out of time order), idx (1-6 keys x 1-5 blocks x 1-3 points from a pool of keys with ',', '=', ' ', backslash escapes, control bytes, prefixes of each other and a ~300-byte key; times small, sometimes all negative or with MinInt64/MaxInt64; 6-13 lookups on present/absent/neighbour keys and times, then 0-4 DeleteRange/Delete batches (sorted key batches with duplicates and absent keys; full-range, whole-key, half-open, inverted and adjacent ranges) each followed by boundary probes, lookups and sometimes reopen), tomb (1-3 Tombstoner commits), crash (5 crash points x durable/non-durable rename x 14+ truncation points of the .tmp, with and without *.tmp cleanup; a second goroutine polls the .tombstone file during the commit: it must never be absent and always hold the old or new set), renamefail (the .tombstone.tmp is moved away in the FileFinishing callback so the rename fails: the set on disk, in an image taken right there and after *.tmp cleanup, must be exactly the old set), limit (key length and block count around 65535). Non-trivial: file with >= 2 accepted calls, idx with >= 1 delete, tomb with >= 2 members, every crash and limit case. Distinct: distinct Gallina terms."
 	var err error
 	base := ""
 	if st, e := os.Stat("/dev/shm"); e == nil && st.IsDir() { // tmpfs: fsync and SyncDir are cheap
@@ -1275,6 +1435,10 @@ func main() {
 			run(w, &c)
 		}
 	}
+	for v := 0; v < 3; v++ { // the commit's rename fails on a file that already has committed tombstones
+		c := jcase{Kind: "renamefail", Old: [][]jtrec{{{"m", 10, 12}}, {{"a", 0, 3}, {"z", 0, 3}}}, New: []jtrec{{"a", 30, 35}, {"m", 30, 35}}, Variant: v}
+		run(w, &c)
+	}
 	{ // MinInt64 tombstone followed by an adjacent one (ts.Min-1 wrap), whole-key coalescing, stale tombstones
 		keys := []fkey{{Key: "a", Typ: 1, Blocks: [][]int64{{math.MinInt64, 0}, {5, 9}}}, {Key: "b", Typ: 0, Blocks: [][]int64{{1, 2}, {3, 4}, {8, math.MaxInt64}}}}
 		c := jcase{Kind: "idx", Keys: keys, Ops: []jop{
@@ -1299,8 +1463,15 @@ func main() {
 			c = g.idxCase(false)
 		case x < 83:
 			c = g.idxCase(true)
-		case x < 90:
+		case x < 89:
 			c = g.tombCase()
+		case x < 93:
+			c = g.crashCase()
+			c.Kind = "renamefail"
+			c.Variant = g.n(3)
+			if len(c.Old) == 0 && g.n(4) != 0 {
+				c.Old = [][]jtrec{{{"m", 10, 12}}}
+			}
 		default:
 			c = g.crashCase()
 		}
